@@ -98,8 +98,8 @@ def check(run: Run) -> None:
     fa, st = stores(fi)
     nodep = ("param", fi.pos_params[1])
     keys = {k for _n, k, _v in st}
-    ok = bool(st) and len({v for _n, _k, v in st}) == 1 and nodep in keys
-    run.check(ok, "C08.R1", fi, fi.node, "one type is recorded for a unary operator, for the node as written too", f"visit_UnaryOp records {[show(v)[:60] for _n, _k, v in st]} (keys {[show(k) for k in keys]})")
+    ok = bool(st) and all(nodep in {k2 for _n2, k2, v2 in st if v2 == v} for _n, _k, v in st)
+    run.check(ok, "C08.R1", fi, fi.node, "whatever type is recorded for a unary operator is recorded for the node as written too", f"visit_UnaryOp records {[show(v)[:60] for _n, _k, v in st]} (keys {[show(k) for k in keys]})")
     # `not x` is a bool whatever x is (D55); -x, +x, ~x keep the operand's type
     _decision(run, ctx, fi, {"operand": "L"}, TYPES4 + ["bool"], ["Not", "USub", "UAdd", "Invert"], _spec_unary, "C08.R1")
 
